@@ -86,9 +86,19 @@ def param_to_str(ident: str) -> str:
         ident, allow_reserved=True, allow_num=True)
 
 
-def ident_to_str(ident: str, allow_num: bool=False) -> str:
+def ident_to_str(
+    ident: str,
+    allow_num: bool=False,
+    allow_partial_reserved: bool=False,
+) -> str:
+    # UNION, EXCEPT and INTERSECT can be used bare as pointer and type
+    # names only, hence allow_partial_reserved=True for those.
     return '::'.join([
-        edgeql_quote.quote_ident(part, allow_num=allow_num)
+        edgeql_quote.quote_ident(
+            part,
+            allow_num=allow_num,
+            allow_partial_reserved=allow_partial_reserved,
+        )
         for part in ident.split('::')
     ])
 
@@ -700,7 +710,7 @@ class EdgeQLSourceGenerator(codegen.SourceGenerator):
         self.write(')')
 
     def visit_TupleElement(self, node: qlast.TupleElement) -> None:
-        self.visit(node.name)
+        self.write(ident_to_str(node.name.name))
         self.write(' := ')
         self.visit(node.val)
 
@@ -765,7 +775,8 @@ class EdgeQLSourceGenerator(codegen.SourceGenerator):
         elif node.direction and node.direction != '>':
             self.write(node.direction)
 
-        self.write(ident_to_str(node.name, allow_num=True))
+        self.write(ident_to_str(
+            node.name, allow_num=True, allow_partial_reserved=True))
 
     def visit_Splat(self, node: qlast.Splat) -> None:
         if node.type is not None:
@@ -981,14 +992,20 @@ class EdgeQLSourceGenerator(codegen.SourceGenerator):
         self.visit(node.index)
         self.write(']')
 
-    def visit_ObjectRef(self, node: qlast.ObjectRef) -> None:
+    def visit_ObjectRef(
+        self,
+        node: qlast.ObjectRef,
+        *,
+        allow_partial_reserved: bool = False,
+    ) -> None:
         if node.itemclass:
             self.write(node.itemclass)
             self.write(' ')
         if node.module:
             self.write(ident_to_str(node.module))
             self.write('::')
-        self.write(ident_to_str(node.name))
+        self.write(ident_to_str(
+            node.name, allow_partial_reserved=allow_partial_reserved))
 
     def visit_SpecialAnchor(self, node: qlast.Anchor) -> None:
         self.write(node.name)
@@ -1012,7 +1029,10 @@ class EdgeQLSourceGenerator(codegen.SourceGenerator):
         if node.name is not None:
             self.write(ident_to_str(node.name), ': ')
 
-        self.visit(node.maintype)
+        if isinstance(node.maintype, qlast.ObjectRef):
+            self.visit(node.maintype, allow_partial_reserved=True)
+        else:
+            self.visit(node.maintype)
         if node.subtypes is not None:
             self.write('<')
             self.visit_list(node.subtypes, newlines=False)
@@ -1244,6 +1264,23 @@ class EdgeQLSourceGenerator(codegen.SourceGenerator):
             self._block_ws(-1)
             self.write('}')
 
+    def _ddl_visit_name(
+        self, node: qlast.ObjectDDL, unqualified: bool
+    ) -> None:
+        # Pointers can be named UNION, EXCEPT or INTERSECT.
+        is_pointer = isinstance(
+            node,
+            (
+                qlast.LinkCommand,
+                qlast.PropertyCommand,
+                qlast.CreateConcretePointer,
+            ),
+        )
+        if not unqualified and node.name.module:
+            self.write(ident_to_str(node.name.module), '::')
+        self.write(ident_to_str(
+            node.name.name, allow_partial_reserved=is_pointer))
+
     def _visit_CreateObject(
         self,
         node: qlast.CreateObject,
@@ -1261,11 +1298,7 @@ class EdgeQLSourceGenerator(codegen.SourceGenerator):
             self._write_keywords('CREATE', *object_keywords)
         if named:
             self.write(' ')
-            if unqualified or not node.name.module:
-                self.write(ident_to_str(node.name.name))
-            else:
-                self.write(ident_to_str(node.name.module), '::',
-                           ident_to_str(node.name.name))
+            self._ddl_visit_name(node, unqualified)
         if after_name:
             after_name()
         if node.create_if_not_exists and not self.sdlmode:
@@ -1297,11 +1330,7 @@ class EdgeQLSourceGenerator(codegen.SourceGenerator):
             self._write_keywords('ALTER', *object_keywords)
         if named:
             self.write(' ')
-            if unqualified or not node.name.module:
-                self.write(ident_to_str(node.name.name))
-            else:
-                self.write(ident_to_str(node.name.module), '::',
-                           ident_to_str(node.name.name))
+            self._ddl_visit_name(node, unqualified)
         if after_name:
             after_name()
 
@@ -1334,11 +1363,7 @@ class EdgeQLSourceGenerator(codegen.SourceGenerator):
         self._write_keywords('DROP', *object_keywords)
         if named:
             self.write(' ')
-            if unqualified or not node.name.module:
-                self.write(ident_to_str(node.name.name))
-            else:
-                self.write(ident_to_str(node.name.module), '::',
-                           ident_to_str(node.name.name))
+            self._ddl_visit_name(node, unqualified)
         if after_name:
             after_name()
         if node.commands:
